@@ -919,6 +919,14 @@ class Component(composites.Composite, metaclass=ComponentType):
     def _getParentSymmetryFactor(self):
         return self.parent.getSymmetryFactor() if self.parent else 1.0
 
+    def getMasses(self):
+        """Masses (g) by nuclide name; as in getMass, those of the symmetry-cut volume."""
+        vol = self.getVolume() / self._getParentSymmetryFactor()
+        return {
+            nucName: densityTools.getMassInGrams(nucName, vol, ndens)
+            for nucName, ndens in self.getNumberDensities().items()
+        }
+
     def addMass(self, nucName, mass):
         """Add mass (g) of a nuclide; as in getMass, masses are those of the symmetry-cut volume."""
         composites.Composite.addMass(
